@@ -166,7 +166,7 @@ Fixpoint fifo_pushes (f : list qreq) : list Z :=
   | _ :: r => fifo_pushes r
   end.
 Definition ph_pushes (p : phase) : list Z :=
-  match p with Rendering _ _ _ _ _ pu => map fst pu | Idle => [] end.
+  match p with Rendering _ _ _ _ _ pu => map fst pu | _ => [] end.
 
 (* every place a displayed or parked bar can be, and the bars gone for good *)
 Definition places (s : cst) : list Z :=
@@ -242,8 +242,8 @@ Ltac simp_state :=
   cbn [bars heap fifo ph popped queue retired upd_bar cs_bars cs_heap cs_hsync cs_hlen cs_hdirty
     cs_iterating cs_popped cs_fifo cs_queue cs_pop_prio cs_id_count cs_ph cs_cwbuf cs_delayed cs_pend_writes cs_pend_fix
     cs_outframes cs_cancelled cs_done_seen cs_ended cs_errored cs_cycle_pops cs_cycle_flushed cs_iter_heap cs_iter_dirty
-    cs_retired ph_pushes hsync hlen hdirty iterating pop_prio id_count pop_mode auto_mode cwbuf delayed pend_writes
-    pend_fix outframes cancelled done_seen ended errored cycle_pops cycle_flushed iter_heap iter_dirty] in *.
+    cs_retired cs_ct_exited cs_wlog cs_cycle_err ph_pushes hsync hlen hdirty iterating pop_prio id_count pop_mode auto_mode cwbuf delayed pend_writes
+    pend_fix outframes cancelled done_seen ended errored ct_exited wlog cycle_err cycle_pops cycle_flushed iter_heap iter_dirty] in *.
 
 Ltac norm_places :=
   repeat match goal with
@@ -349,8 +349,9 @@ Definition plain (q : qreq) : bool := match q with QSync | QIter => false | _ =>
 (* shape of the queue: a cycle's sync and iter requests are the last two entries
    until the heap manager has taken them; nothing is sent behind them during the cycle *)
 Definition QShape (s : cst) : Prop :=
-  if is_idle s then forallb plain (fifo s) = true
-  else (exists pre, forallb plain pre = true /\ fifo s = pre ++ [QSync; QIter]) \/ fifo s = [QIter] \/ fifo s = [].
+  if rendering s
+  then (exists pre, forallb plain pre = true /\ fifo s = pre ++ [QSync; QIter]) \/ fifo s = [QIter] \/ fifo s = []
+  else forallb plain (fifo s) = true.
 
 Lemma forallb_plain_replace f by_ f' :
   replace_last_op f by_ = Some f' -> forallb plain f = true -> forallb plain by_ = true -> forallb plain f' = true.
@@ -364,52 +365,58 @@ Proof.
   apply IH; auto.
 Qed.
 
+Lemma forallb_plain_pushes (pu : list (Z * bool)) : forallb plain (map (fun p => QPush (fst p) (snd p)) pu) = true.
+Proof. induction pu as [|[? ?] pu IH]; cbn; auto. Qed.
+
 Lemma QShape_init p a d : QShape (init_cst p a d).
 Proof. reflexivity. Qed.
 
-Lemma QShape_same s s' : is_idle s' = is_idle s -> fifo s' = fifo s -> QShape s -> QShape s'.
+Lemma QShape_same s s' : rendering s' = rendering s -> fifo s' = fifo s -> QShape s -> QShape s'.
 Proof. unfold QShape. intros -> ->. auto. Qed.
 
 Lemma QShape_pop s s' q rest :
-  is_idle s' = is_idle s -> fifo s = q :: rest -> fifo s' = rest -> QShape s -> QShape s'.
+  rendering s' = rendering s -> fifo s = q :: rest -> fifo s' = rest -> QShape s -> QShape s'.
 Proof.
-  unfold QShape. intros -> E ->. rewrite E. destruct (is_idle s).
-  - cbn. intros H. apply andb_prop in H as [_ H]. exact H.
+  unfold QShape. intros -> E ->. rewrite E. destruct (rendering s).
   - intros [(pre & P & F)|[F|F]]; try discriminate.
     + destruct pre as [|q0 pre]; cbn in F; inversion F; subst; [right; left; reflexivity|].
       left. exists pre. cbn in P. apply andb_prop in P as [_ P]. auto.
     + inversion F; subst. right; right; reflexivity.
+  - cbn. intros H. apply andb_prop in H as [_ H]. exact H.
 Qed.
 
-Lemma is_idle_Rendering s a b c d e f : ph s = Rendering a b c d e f -> is_idle s = false.
-Proof. unfold is_idle. intros ->. reflexivity. Qed.
+Lemma is_idle_ph s : is_idle s = true -> ph s = Idle.
+Proof. unfold is_idle. destruct (ph s); try discriminate. reflexivity. Qed.
+
+Lemma rendering_ph s a b c d e f : ph s = Rendering a b c d e f -> rendering s = true.
+Proof. unfold rendering. intros ->. reflexivity. Qed.
+
+Ltac ph_facts :=
+  repeat match goal with
+  | H : is_idle ?s = true |- _ => apply is_idle_ph in H
+  | H : _ && _ = true |- _ => let A := fresh "Ha" in let B := fresh "Hb" in apply andb_prop in H as [A B]
+  end.
 
 Lemma step_QShape s e s' : step s e = Some s' -> QShape s -> QShape s'.
 Proof.
   intros H Q.
   destruct e; break_step H; use_fifo_pop;
     try (eapply QShape_pop; [| eassumption | reflexivity | exact Q]; reflexivity);
-    try (eapply QShape_same; [| | exact Q]; reflexivity).
-  all: repeat match goal with
-       | H : ph ?s = Rendering _ _ _ _ _ _ |- _ => pose proof (is_idle_Rendering _ _ _ _ _ _ _ H); clear H
-       end.
-  all: unfold QShape in *; simp_state; unfold is_idle in *; simp_state.
-  all: repeat match goal with H : context [match ph ?s with _ => _ end] |- _ => destruct (ph s); try discriminate H end.
+    try (eapply QShape_same; [| | exact Q]; reflexivity); ph_facts.
+  all: unfold QShape, rendering in *; simp_state.
+  all: repeat match goal with H : ph ?s = _ |- _ => rewrite H in *; clear H end.
+  all: cbn [nil_b] in *.
   all: try (rewrite forallb_app; cbn; rewrite Q; reflexivity).
   all: try (eapply forallb_plain_replace; eauto; reflexivity).
   all: try (left; eexists; split; [exact Q|reflexivity]).
-  all: try (rewrite forallb_app; apply andb_true_intro; split; [|clear; match goal with |- forallb plain (map _ ?pu) = true => induction pu as [|[? ?] pu IH]; cbn; auto end]).
-  all: try discriminate.
-  all: repeat match goal with H : _ && _ = true |- _ => apply andb_prop in H as [? ?] end; try discriminate.
-  all: try (match goal with H : nil_b (fifo ?s0) = true |- _ => destruct (fifo s0); [|discriminate H] end; cbn;
-            clear; match goal with |- forallb plain (map _ ?pu) = true => induction pu as [|[? ?] pu IH]; cbn; auto end).
-  all: try (match goal with H : nil_b (fifo ?s0) = true |- forallb plain (fifo ?s0) = true =>
-              destruct (fifo s0); [reflexivity|discriminate H] end).
-  all: try exact Q; auto.
+  all: try exact Q.
+  all: repeat match goal with H : nil_b (fifo ?s0) = true |- _ => apply (fun l => match l as l0 return nil_b l0 = true -> l0 = [] with [] => fun _ => eq_refl | _ => fun E => ltac:(discriminate E) end) in H end.
+  all: repeat match goal with H : fifo ?s0 = [] |- _ => rewrite H in *; clear H end.
+  all: cbn [app]; try apply forallb_plain_pushes; auto.
 Qed.
 
 (* ---------- one render cycle ---------- *)
-Definition in_window (s : cst) : bool := negb (is_idle s) && nil_b (fifo s).
+Definition in_window (s : cst) : bool := rendering s && nil_b (fifo s).
 
 Record Cyc (s : cst) : Prop := {
   cyc_flush : cycle_flushed s ++ popped s = map fst (cycle_pops s);
@@ -429,7 +436,7 @@ Lemma map_fst_app_one (l : list (Z * Z)) b p : map fst (l ++ [(b, p)]) = map fst
 Proof. rewrite map_app. reflexivity. Qed.
 
 Lemma QShape_window_pop s q rest :
-  QShape s -> is_idle s = false -> fifo s = q :: rest -> rest = [] -> q = QIter.
+  QShape s -> rendering s = true -> fifo s = q :: rest -> rest = [] -> q = QIter.
 Proof.
   unfold QShape. intros Q I F ->. rewrite I, F in Q.
   destruct Q as [(pre & P & E)|[E|E]]; try discriminate.
@@ -451,21 +458,21 @@ Proof.
   - intros Hw. destruct (W Hw) as (W1 & W2 & W3). rewrite E3, W2, W3. auto.
 Qed.
 
-Lemma in_window_idle s : is_idle s = true -> in_window s = false.
+Lemma in_window_idle s : rendering s = false -> in_window s = false.
 Proof. unfold in_window. intros ->. reflexivity. Qed.
 
 Lemma in_window_fifo s q r : fifo s = q :: r -> in_window s = false.
 Proof. unfold in_window. intros ->. apply andb_false_r. Qed.
 
-Ltac not_window :=
-  let W := fresh "W" in intros W; exfalso;
-  first [ rewrite in_window_idle in W by reflexivity; discriminate W
-        | unfold in_window in W; simp_state; rewrite ?andb_false_r in W; discriminate W
-        | unfold in_window in W; simp_state;
-          match type of W with context [nil_b (?a ++ ?b)] => destruct a; cbn in W; rewrite ?andb_false_r in W; discriminate W end ].
+Ltac window_closed :=
+  let W := fresh "W" in intros W; exfalso; unfold in_window, rendering in W; simp_state;
+  repeat match goal with H : ph ?s = _ |- _ => rewrite H in W end; cbn in W;
+  rewrite ?andb_false_r in W; try discriminate W;
+  try (match type of W with context [nil_b (?a ++ ?b)] => destruct a; cbn in W; rewrite ?andb_false_r in W; discriminate W end).
 
 Ltac prep :=
   repeat match goal with
+  | H : is_idle ?s = true |- _ => apply is_idle_ph in H
   | H : _ && _ = true |- _ => let A := fresh "Ha" in let B := fresh "Hb" in apply andb_prop in H as [A B]
   | H : negb _ = true |- _ => apply negb_true_iff in H
   | H : negb _ = false |- _ => apply negb_false_iff in H
@@ -474,7 +481,7 @@ Ltac prep :=
 (* the heap manager took a request that is not the cycle's iter request: the window stays shut *)
 Ltac win_contra Q :=
   let W := fresh "W" in intros W; exfalso; unfold in_window in W; simp_state;
-  apply andb_prop in W as [W1 W2]; apply negb_true_iff in W1; apply nil_b_true in W2;
+  apply andb_prop in W as [W1 W2]; apply nil_b_true in W2;
   match goal with
   | Hf : fifo ?s = ?q :: ?rest |- _ =>
       pose proof (QShape_window_pop s q rest Q W1 Hf W2) as Eq; subst q
@@ -483,10 +490,6 @@ Ltac win_contra Q :=
   | Hw : is_push _ _ QIter = true |- _ => discriminate Hw
   | Hw : is_q _ QIter = true |- _ => discriminate Hw
   end.
-
-Ltac idle_no_window :=
-  let W := fresh "W" in intros W; exfalso; unfold in_window, is_idle in *; simp_state;
-  match goal with H : context [ph ?s] |- _ => destruct (ph s) end; cbn in *; try discriminate; try congruence.
 
 Lemma Cyc_flush s s' b rest :
   popped s = b :: rest -> popped s' = rest -> cycle_flushed s' = cycle_flushed s ++ [b] ->
@@ -499,6 +502,18 @@ Proof.
   - rewrite E2, E3, E4. exact C2.
   - rewrite W, E2, E5. exact C3.
   - rewrite W, E1, E5, E6. exact C4.
+Qed.
+
+Lemma Cyc_flush_close s s' b rest :
+  popped s = b :: rest -> popped s' = rest -> cycle_flushed s' = cycle_flushed s ++ [b] ->
+  cycle_pops s' = cycle_pops s -> iterating s' = iterating s -> hdirty s' = hdirty s ->
+  iter_dirty s' = iter_dirty s -> in_window s' = false -> Cyc s -> Cyc s'.
+Proof.
+  intros P P' F E1 E2 E3 E4 W [C1 C2 C3 C4]. constructor.
+  - rewrite F, P', E1, <- C1, P, <- app_assoc. reflexivity.
+  - rewrite E2, E3, E4. exact C2.
+  - rewrite W. discriminate.
+  - rewrite W. discriminate.
 Qed.
 
 Lemma Cyc_pop s s' b p :
@@ -520,30 +535,31 @@ Qed.
 Lemma step_Cyc s e s' : step s e = Some s' -> QShape s -> Cyc s -> Cyc s'.
 Proof.
   intros H Q C.
-  destruct e; break_step H; use_fifo_pop; try assumption;
+  destruct e; break_step H; use_fifo_pop; try assumption; prep;
     try (apply (Cyc_frame s); simp_state; auto; fail);
-    try (apply (Cyc_frame s); simp_state; auto; not_window; fail);
-    prep;
-    try (apply (Cyc_frame s); simp_state; auto; idle_no_window; fail);
-    try (apply (Cyc_frame s); simp_state; auto; try discriminate; win_contra Q; fail).
+    try (apply (Cyc_frame s); simp_state; auto; try congruence; window_closed; fail);
+    try (apply (Cyc_frame s); simp_state; auto; try discriminate; try congruence; win_contra Q; fail).
   all: try (apply (Cyc_frame s); simp_state; auto;
-            unfold in_window, is_idle; simp_state; match goal with H : ph _ = _ |- _ => rewrite H end; auto; fail).
+            unfold in_window, rendering; simp_state; repeat match goal with H : ph _ = _ |- _ => rewrite H end; auto; fail).
   all: try (split_popped; prep;
             repeat match goal with H : (_ =? _) = true |- _ => apply Z.eqb_eq in H end; subst;
             eapply Cyc_flush; simp_state; try eassumption; try reflexivity;
-            unfold in_window, is_idle; simp_state;
-            match goal with H : ph _ = _ |- _ => rewrite H end; reflexivity).
+            unfold in_window, rendering; simp_state;
+            repeat match goal with H : ph _ = _ |- _ => rewrite H end; reflexivity).
+  all: try (split_popped; prep;
+            repeat match goal with H : (_ =? _) = true |- _ => apply Z.eqb_eq in H end; subst;
+            eapply Cyc_flush_close; simp_state; try eassumption; try reflexivity;
+            unfold in_window, rendering; simp_state; reflexivity).
   - (* HM_ITERREQ with ordered iteration: the window opens *)
     destruct C as [C1 C2 C3 C4]. constructor; simp_state; auto.
     intros _. destruct (heap s); cbn; split; intros; congruence.
-  - (* HM_FIX *) apply (Cyc_frame s); simp_state; auto; try congruence. win_contra Q.
   - (* HM_POP, last bar *)
-    prep. eapply (Cyc_pop s _ b prio); simp_state; try reflexivity; auto.
+    eapply (Cyc_pop s _ b prio); simp_state; try reflexivity; auto.
     + apply memZ_In; assumption.
     + match goal with H : nil_b _ = true |- _ => rewrite H end. reflexivity.
     + discriminate.
   - (* HM_POP *)
-    prep. eapply (Cyc_pop s _ b prio); simp_state; try reflexivity; auto.
+    eapply (Cyc_pop s _ b prio); simp_state; try reflexivity; auto.
     + apply memZ_In; assumption.
     + match goal with H : nil_b _ = false |- _ => rewrite H end. reflexivity.
 Qed.
@@ -749,11 +765,11 @@ Theorem frame_bars_are_iter_heap p a d evs s n pc s' :
   forall x, cnt x (cycle_flushed s) = cnt x (iter_heap s).
 Proof.
   intros R H x. destruct (reachable_Inv _ _ _ _ _ R) as [U K Q C S].
-  unfold step in H. destruct (ph s) eqn:P; [discriminate|].
+  unfold step in H. destruct (ph s) eqn:P; [discriminate| |discriminate].
   destruct (_ && _) eqn:G in H; [|discriminate]. prep.
   match goal with Hx : nil_b (fifo s) = true |- _ => apply nil_b_true in Hx; rename Hx into Ff end.
   match goal with Hx : nil_b (popped s) = true |- _ => apply nil_b_true in Hx; rename Hx into Fp end.
-  assert (W : in_window s = true) by (unfold in_window, is_idle; rewrite P, Ff; reflexivity).
+  assert (W : in_window s = true) by (unfold in_window, rendering; rewrite P, Ff; reflexivity).
   pose proof (cyc_heap s C W x) as E. pose proof (cyc_flush s C) as F. rewrite Fp, app_nil_r in F.
   assert (Hh : heap s = []) by (apply (cyc_done s C W); assumption).
   rewrite Hh in E. cbn in E. rewrite <- F in E. lia.
